@@ -11,6 +11,31 @@ open Text
 def stdRequestFrame : Bytes :=
   (unhex "014058000027003a6d6574686f6407434f4e4e45435427003a736368656d6505687474707327023a70726f746f636f6c0c7765627472616e73706f727427033a617574686f72697479096c6f63616c686f7374253a70617468012f").getD []
 
+/-- the registered value of each error (RFC 9114 §8.1, RFC 9204 §6, WebTransport over HTTP/3),
+from the independent transcription in `Spec/H3.lean`, not from the source -/
+def specCode : H3Err → Nat
+  | .datagram => Spec.H3_DATAGRAM_ERROR
+  | .noError => Spec.H3_NO_ERROR
+  | .streamCreation => Spec.H3_STREAM_CREATION_ERROR
+  | .closedCriticalStream => Spec.H3_CLOSED_CRITICAL_STREAM
+  | .frameUnexpected => Spec.H3_FRAME_UNEXPECTED
+  | .frame => Spec.H3_FRAME_ERROR
+  | .excessiveLoad => Spec.H3_EXCESSIVE_LOAD
+  | .id => Spec.H3_ID_ERROR
+  | .settings => Spec.H3_SETTINGS_ERROR
+  | .missingSettings => Spec.H3_MISSING_SETTINGS
+  | .requestRejected => Spec.H3_REQUEST_REJECTED
+  | .message => Spec.H3_MESSAGE_ERROR
+  | .decompression => Spec.QPACK_DECOMPRESSION_FAILED
+  | .bufferedStreamRejected => Spec.WEBTRANSPORT_BUFFERED_STREAM_REJECTED
+  | .sessionGone => Spec.WEBTRANSPORT_SESSION_GONE
+
+/-- the model's code (regenerated from error.rs) back to the symbolic error -/
+def errOfCode (c : Nat) : Option H3Err :=
+  [H3Err.datagram, .noError, .streamCreation, .closedCriticalStream, .frameUnexpected, .frame, .excessiveLoad, .id,
+   .settings, .missingSettings, .requestRejected, .message, .decompression, .bufferedStreamRejected, .sessionGone].find?
+    (fun e => e.toCode == c)
+
 def parseStep (t : String) : Option Sim.Step :=
   let p := t.splitOn ":"
   match p with
@@ -65,15 +90,25 @@ def handle8 (op : String) (a obs : List String) : Option Verdict :=
     -- harness note: on the client side `resp:` needs the client's request stream, which only
     -- appears once the client has the peer's SETTINGS
     let noReq := client && steps.any (fun st => match st with | .resp _ => true | _ => false) && !st.settings && st.err.isNone
+    -- the same reactions with the registered values (property side)
+    let peerSpec := match st.err with
+      | some e => s!"app:{specCode e}:-"
+      | none => if st.closedOk then s!"app:{Spec.H3_NO_ERROR}:-" else "alive"
+    let stopsSpec := (strs.filter (·.contains "stopped")).map fun x =>
+      match x.splitOn ":stopped:" with
+      | [i, c] => (match c.toNat?.bind errOfCode with
+          | some e => s!"{i}:stopped:{specCode e}"
+          | none => x)          -- `stopped:0` (a dropped handle): not an error code
+      | _ => x
     let model := [s!"peer_close={peer}", s!"streams={joinList strs}", s!"app={app}"] ++
       (if noReq then ["err=raw:resp:no_request_stream"] else [])
     -- the property on the observation: the endpoint reacts with exactly the prescribed code
     -- (or not at all); the expectation is the model's, whose reactions are the theorems of
     -- Props/C12 and C13 (each alphabet element -> its registered code; ignorable elements invisible)
     let prop := check [("no_trap", !isTrap obs),
-      ("connection_reaction_is_the_prescribed_code", field obs "peer_close" == peer),
+      ("connection_reaction_is_the_prescribed_code", field obs "peer_close" == peerSpec),
       ("stream_reactions_are_the_prescribed_codes",
-        (splitList (field obs "streams")).filter (·.contains "stopped") == strs.filter (·.contains "stopped")),
+        (splitList (field obs "streams")).filter (·.contains "stopped") == stopsSpec),
       ("application_sees_what_the_rules_say", field obs "app" == app)]
     pure (model, prop)
   | _ => none
